@@ -21,3 +21,4 @@ open Just.Props.C17
 #print axioms mem_unsortedOrder
 #print axioms length_insertPlaced
 #print axioms length_unsortedOrder
+#print axioms groups_listed_in_name_order
